@@ -10,7 +10,7 @@ import z3
 
 from .types import (T, INT, BOOL, BYTES, STR, NONE, ANY, OPT, LIST, SET, MAP, TUPLE, CLS, Outside, to_sort, opt_sort,
                     tuple_sort, from_annotation, BYTES_SORT, BV8)
-from .engine import (V, Ref, HeapObj, ExcVal, Raised, Closure, BoundMethod, BuiltinMethod, LocalClass, GhostNS,
+from .engine import (RangeV, IterV, V, Ref, HeapObj, ExcVal, Raised, Closure, BoundMethod, BuiltinMethod, LocalClass, GhostNS,
                      Frame, State, is_concrete, bytes_term)
 from .interp import Interp, Ctl, inspect_getattr_static, _is_true, _is_false
 
@@ -507,23 +507,28 @@ class Calls(Interp):
         yield st, self._minmax(args, st, False)
 
     def bi_range(self, args, kwargs, st, e):
-        yield st, ('range',) + tuple(args)
+        if len(args) == 1:
+            yield st, RangeV(0, args[0], 1)
+        elif len(args) == 2:
+            yield st, RangeV(args[0], args[1], 1)
+        else:
+            yield st, RangeV(*args)
 
     def bi_enumerate(self, args, kwargs, st, e):
-        yield st, ('enumerate', args[0])
+        yield st, IterV('enumerate', args[0])
 
     def bi_reversed(self, args, kwargs, st, e):
-        yield st, ('reversed', args[0])
+        yield st, IterV('reversed', args[0])
 
     def bi_list(self, args, kwargs, st, e):
         if not args:
             yield st, self.new_container(st, 'list', None)
             return
         v = args[0]
-        if isinstance(v, tuple) and v and v[0] == 'range':
+        if isinstance(v, RangeV):
             raise Outside("list(range(...))")
-        if isinstance(v, tuple) and v and v[0] in ('values', 'keys'):
-            yield st, self.new_container(st, 'list', self.enumerate_map(v[1], v[0], st))
+        if isinstance(v, IterV) and v.kind in ('values', 'keys'):
+            yield st, self.new_container(st, 'list', self.enumerate_map(v.base, v.kind, st))
             return
         if isinstance(v, Ref):
             v = self.lift(v, st)
@@ -707,13 +712,13 @@ class Calls(Interp):
         yield from self.v_map_get(h.val, args, kwargs, st, e)
 
     def m_dict_keys(self, ref, h, args, kwargs, st, e):
-        yield st, ('keys', ref)
+        yield st, IterV('keys', ref)
 
     def m_dict_values(self, ref, h, args, kwargs, st, e):
-        yield st, ('values', ref)
+        yield st, IterV('values', ref)
 
     def m_dict_items(self, ref, h, args, kwargs, st, e):
-        yield st, ('items', ref)
+        yield st, IterV('items', ref)
 
     # ---- immutable values ------------------------------------------------------------------------------------------
 
@@ -754,13 +759,13 @@ class Calls(Interp):
         yield st, h.val
 
     def v_map_keys(self, recv, args, kwargs, st, e):
-        yield st, ('keys', recv)
+        yield st, IterV('keys', recv)
 
     def v_map_values(self, recv, args, kwargs, st, e):
-        yield st, ('values', recv)
+        yield st, IterV('values', recv)
 
     def v_map_items(self, recv, args, kwargs, st, e):
-        yield st, ('items', recv)
+        yield st, IterV('items', recv)
 
     def v_int_to_bytes(self, recv, args, kwargs, st, e):
         length = args[0] if args else kwargs.get('length')
